@@ -432,7 +432,9 @@ class BitArray(Bits):
         if not isinstance(pos, abc.Iterable):
             pos = (pos,)
         v = 1 if value else 0
-        if isinstance(pos, range):
+        if isinstance(pos, range) and pos.step > 0 and 0 <= pos.start and 0 <= pos.stop <= len(self):
+            # Fast path. Only valid when the range means the same as the slice, so not for negative
+            # values (a slice counts those from the end) or positions past the end (a slice clips them).
             self._bitstore.__setitem__(slice(pos.start, pos.stop, pos.step), v)
             return
         for p in pos:
